@@ -12,6 +12,7 @@ from buidl.helper import (
 from buidl.timelock import (
     Locktime,
     Sequence,
+    MAX_LOCKTIME,
     MAX_SEQUENCE,
     SEQUENCE_DISABLE_RELATIVE_FLAG,
 )
@@ -857,8 +858,11 @@ def op_checklocktimeverify(stack, tx_obj, input_index):
         return False
     if len(stack) < 1:
         return False
+    # the operand is a script number of at most 5 bytes
+    if len(stack[-1]) > 5:
+        return False
     element = decode_num(stack[-1])
-    if element < 0:
+    if element < 0 or element > MAX_LOCKTIME:
         return False
     stack_locktime = Locktime(element)
     if not locktime.is_comparable(stack_locktime):
